@@ -26,11 +26,17 @@ EXTRA = {
  'C05': ('codec arm self-consistency rule', 'Also decided: in decoderune/encoderune the width tested, the continuation bytes checked, the bytes combined, the position advance and the returned length agree per arm; decoding errors resume at start+1; overlong, surrogate and out-of-range values are rejected by the arm of their width (R05.6).'),
  'C06': ('empty-stub rule over the map code\'s callees + CFG write-protocol rules + partial evaluation of the emptyRest guard + sibling dispatch rule', 'Also decided: no same-package callee of the map code is an empty stub (R06.7); write flag set after hashing and cleared before every return, growWork before bucket selection while growing, h.count updated with the slot, emptyRest stored only after the next chain position was consulted - for the last slot through the overflow bucket (R06.8); both interface hash functions hash the data word for pointer-shaped types and the pointee otherwise (R06.9).'),
  'C07': ('CFG must-pass through types.NewMethodSet', 'Also decided: every arm of abiUncommonMethodSet for a kind that can carry methods reaches its result only through types.NewMethodSet (R07.6).'),
- 'C08': ('accumulation-order rule + exact-comparison rule for layout reuse', 'Also decided: Offsetsof adds a field\'s own closure words only after recording its offset; a cached LLVM struct is reused for another named type only on field-type identity (R08.8).'),
+ 'C08': ('accumulation-order rule + exact-comparison rule for layout reuse', 'Also decided: Offsetsof adds a field\'s own closure words only after recording its offset; a cached LLVM struct is reused for another named type only on field-type identity (R08.8); the struct arm of PtrBytes keeps (field, prefix) together.'),
  'C10': ('zeroed-slot definition rule + constant-argument rule on select probes', 'Also decided: every receive destination handed to the runtime is a zero-initialising allocation (R10.8); every receive probe that accepts registered select-senders gets the select\'s own send-channel set and each probing order covers both directions (R10.9).'),
  'C11': ('all-definitions heap rule + lookup/insert atomicity on the CFG', 'Also decided: every definition of the record handed to pthreadCreate is a GC-heap allocation; get-or-create of per-address wait state has no unlock between the failed lookup and the insert (R11.8).'),
  'C12': ('linkage rule for replaceable fallbacks', 'Also decided: link-time replaceable initialiser fallbacks are weak, never ODR/inlinable (R12.3).'),
  'C13': ('who-may-call rule (os.Lstat) + CFG must-pass for the compiler hash', 'Also decided: input-file digests use os.Stat, never os.Lstat (R13.9); flags.UpdateConfig assigns Config.CompilerHash on every successful path (R13.10).'),
+ 'C14': ('separator rule on symbol ownership + lookup-after-load dominance + receiver-package flow into wrapper names', 'Also decided: a symbol is attributed to a package by path+"." (R14.5); link names are looked up only after ensureLoaded registered the package\'s directives (R14.6); the receiver\'s own package enters the names of $bound/$thunk wrappers.'),
+ 'C15': ('component-link rule + spelling rules (map key, chan of receive-only chan, struct tags, named pointer types) + ordering rule in DeepEqual', 'Also decided: every descriptor link to a component type goes through abi.PublicType (R15.5); map keys are star-aware, chan (<-chan T) is parenthesised, struct tags are printed, defined pointer types carry no star flag (R15.4); DeepEqual compares slice lengths before the same-array shortcut (R15.6).'),
+ 'C16': ('raw-comment-text rule + quoted-directory rule + per-iteration flag scope + unadjusted-position rule', 'Also decided: //go:embed is recognised only at the start of the comment text (R16.4); the package directory is quoted in the glob (R16.5); the all: flag is per pattern; file positions ignore //line directives (R16.6).'),
+ 'C18': ('error-tested-before-store rule on Loader maps', 'Also decided: a value produced together with an error is stored in a Loader map only after the error was tested (R18.7).'),
+ 'C19': ('cache-hit re-typing rule + grouping-key rule + finite evaluation of the notInit name predicate', 'Also decided: Python callees are typed with the signature of the Go declaration used at the call (R19.5); each symbol is grouped under its own module (R19.6); only names ending in .init are skipped when placing the binding code (R19.7).'),
+ 'C20': ('per-argument taint sinks', "Also decided: every tainted argument of a file-system call needs its own guard - the guard on a link's location does not cover the link's target."),
 }
 for pid, (tq, tx) in EXTRA.items():
     if pid in CLAIMS:
